@@ -28,6 +28,31 @@ def allMulti : List Arg → List (Nat × Bool × Bool × Bytes × List Bytes)
   | .tok (.prim (.execMulti id dir ok cmd fixed)) :: rest => (id, dir, ok, cmd, fixed) :: allMulti rest
   | _ :: rest => allMulti rest
 
+/-- C09 with a `+` action in the same expression (every command succeeding): the commands of the
+    `;` action are those of the reference run, in order; every path the `+` actions are reached on
+    is handed to exactly one of their invocations, in visit order (C08); output and status as the
+    reference says -/
+def predMixed (follow : Follow) (roots : List (Bytes × Option (Node Attr))) (args : List Arg)
+    (obsSt : Nat) (obsOut : Bytes) (obsExecs : List (Bytes × List Bytes)) (norm : Bytes → Bytes) : Bool :=
+  match refRunX follow roots args [] with
+  | none => obsSt != 0
+  | some (r, evs) =>
+    let ms := allMulti args
+    let tags := ms.map fun m => (toString m.1).toUTF8.toList
+    let isPlusObs := fun (e : Bytes × List Bytes) => ms.any fun m => e.2.take (m.2.2.2.2.length + 1) == m.2.2.2.1 :: m.2.2.2.2
+    let isNote := fun (e : ExecEvent) => tags.any fun t => e.argv.head? == some t
+    let singlesObs := obsExecs.filter fun e => !isPlusObs e
+    let singlesRef := (evs.filter fun e => !isNote e).map fun e => ((match e.cwd with | none => [46] | some d => norm d), e.argv)
+    let perAction := ms.all fun (id, _, ok, cmd, fixed) =>
+      let pre := cmd :: fixed
+      let mine := obsExecs.filter fun e => e.2.take pre.length == pre
+      let delivered := mine.flatMap fun e => (e.2.drop pre.length).map fun a => (e.1, a)
+      let tag := (toString id).toUTF8.toList
+      let expected := (evs.filter fun e => e.argv.head? == some tag).map fun e =>
+        ((match e.cwd with | none => [46] | some d => norm d), e.argv.getD 1 [])
+      if ok then delivered == expected else mine.isEmpty
+    obsOut == r.out && ((obsSt == 0) == (r.ret == 0)) && singlesObs == singlesRef && perAction
+
 /-- C08: for every `+` action (they are told apart by their command and fixed arguments) every
     reached path is in exactly one invocation, after the fixed arguments, in visit order;
     -execdir: one directory per invocation, paths spelled ./name, run in that directory; find's
